@@ -500,6 +500,10 @@ func (fr *Frame) applyContract(site ssa.Instruction, k *FuncContract, ce callee,
 	}
 	env := vc.newEnv(k, st, st.clone())
 	env.frame = nil
+	if strings.Contains(k.Name, " in ") {
+		// a contract scoped to this caller may mention the caller's locals by name
+		env.frame = fr
+	}
 	for i, n := range names {
 		if i < len(args) {
 			cv := cval{t: args[i], typ: typs[i], sort: vc.sortOf(typs[i])}
@@ -507,6 +511,22 @@ func (fr *Frame) applyContract(site ssa.Instruction, k *FuncContract, ce callee,
 			env.vars[fmt.Sprintf("p%d", i)] = cv
 			if i == 0 && (c.IsInvoke() || c.Signature().Recv() != nil) {
 				env.vars["self"] = cv
+			}
+		}
+	}
+	if ce.clo != nil && ce.fn != nil {
+		// contract of a function literal: captured variables by name (cells are read in the current state)
+		for i, fv := range ce.fn.FreeVars {
+			if i >= len(ce.clo.bindings) {
+				break
+			}
+			b := ce.clo.bindings[i]
+			bt := ce.clo.frame.val(b)
+			if pt, ok := fv.Type().Underlying().(*types.Pointer); ok && !isAggregate(pt.Elem()) {
+				a := vc.cellAddr(pt.Elem(), bt)
+				env.vars[fv.Name()] = cval{t: vc.read(st, a), typ: pt.Elem(), sort: vc.sortOf(pt.Elem()), addr: a}
+			} else {
+				env.vars[fv.Name()] = cval{t: bt, typ: fv.Type(), sort: vc.sortOf(fv.Type())}
 			}
 		}
 	}
@@ -552,10 +572,44 @@ func (fr *Frame) applyContract(site ssa.Instruction, k *FuncContract, ce callee,
 			applies = false
 		}
 		if !applies {
-			vc.assume(*reach, g)
-			continue
+			// ... unless the calling function is not verified under any property the
+			// clause belongs to: then nobody else would ever check it at this site
+			owners := rq.Props
+			if len(owners) == 0 {
+				owners = k.Props
+			}
+			root := fr
+			for root.parent != nil {
+				root = root.parent
+			}
+			covered := false
+			if root.spec != nil {
+				for _, q := range owners {
+					if root.spec.hasProp(q) {
+						covered = true
+					}
+				}
+			}
+			if covered {
+				vc.assume(*reach, g)
+				continue
+			}
 		}
 		vc.oblige("requires", nm, rq.Src, *reach, g, site.Pos(), rq.Claimed)
+	}
+	if k.Flags["spawns"] && !fr.spawning {
+		// the callee starts its function argument on another goroutine (or refuses it):
+		// the argument's own precondition must hold here, like at a go statement
+		for _, a := range c.Args {
+			if cl := fr.clos[a]; cl != nil {
+				if kc := vc.DB.Funcs[calleeName(cl.fn)]; kc != nil {
+					r := *reach
+					fr.spawning = true
+					fr.applyContract(site, kc, callee{fn: cl.fn, name: calleeName(cl.fn), clo: cl}, &ssa.CallCommon{Value: a}, st, &r)
+					fr.spawning = false
+				}
+			}
+		}
 	}
 	if fr.spawning {
 		// go statement: only the spawn-time ghost code of the contract takes effect here
@@ -656,8 +710,15 @@ func (fr *Frame) runDefers(st *State, reach string, panicking bool) string {
 func (fr *Frame) callDeferred(d *ssa.Defer, st *State, reach *string, panicking bool) {
 	old := fr.panicking
 	fr.panicking = panicking
+	n := len(fr.panics)
 	fr.call(d, d.Common(), st, reach)
 	fr.panicking = old
+	// a panic raised while a deferred call runs leaves the function panicking
+	// (after the remaining defers); the deferred call itself does not run again
+	if len(fr.panics) > n {
+		fr.deferPanics = append(fr.deferPanics, fr.panics[n:]...)
+		fr.panics = fr.panics[:n:n]
+	}
 }
 
 func (fr *Frame) goStmt(x *ssa.Go, st *State, reach *string) {
